@@ -1194,6 +1194,75 @@ def main(ctx):
                 bounds=dict(imax="0..%d" % imx, nrand="0..%d" % imx, unique=[True, False], seeds=[0, 1, 2],
                             generators=["RandomState(seed)", "default_rng(seed)", "seed= keyword", "default", "recording stub"]))
 
+    # ---- a scripted LEGACY-style generator (no .integers method) on large ranges
+    # Whatever route random_indices takes for a legacy generator and a sparse draw from a large range (the thresholds
+    # are harvested from the integer constants of esutil.random), every primitive it may ask for - randint, random_sample,
+    # choice, permutation, shuffle - is answered from a script over a 3-value alphabet, so that repeats among the draws
+    # and among the re-draws occur in every pattern.  unique=True must return nrand DISTINCT indices in range.
+    class ScriptedLegacy(object):
+        def __init__(self, first, refill):
+            self.first, self.refill, self.nreq = list(first), list(refill), 0
+
+        def _vals(self, n, hi):
+            src = self.first if self.nreq == 0 else self.refill
+            self.nreq += 1
+            return np.array([src[k % len(src)] % max(hi, 1) for k in range(n)], dtype="i8")
+
+        def randint(self, low, high=None, size=None, dtype=int):
+            if high is None:
+                low, high = 0, low
+            n = 1 if size is None else int(np.prod(size))
+            v = low + self._vals(n, high - low)
+            return int(v[0]) if size is None else v.reshape(size)
+
+        def random_sample(self, size=None):
+            n = 1 if size is None else int(np.prod(size))
+            v = (self._vals(n, 10 ** 6) % 1000) / 1000.0
+            return float(v[0]) if size is None else v.reshape(size)
+
+        random = rand = random_sample
+
+        def choice(self, a, size=None, replace=True, p=None):
+            # a valid answer (distinct values when replace=False): the first `size` values of 7, 7+13, ... mod a
+            n = 1 if size is None else int(np.prod(size))
+            a = int(a)
+            out, v, seen = [], 7 % a, set()
+            while len(out) < n:
+                if replace or v not in seen:
+                    out.append(v)
+                    seen.add(v)
+                v = (v + 13) % a if replace else (v + 1) % a
+            return np.array(out, dtype="i8")
+
+        def shuffle(self, x):
+            x[...] = x[::-1].copy()
+
+        def permutation(self, x):
+            x = np.arange(x) if np.ndim(x) == 0 else np.array(x)
+            return x[::-1].copy()
+
+    def one_scripted(case, rec):
+        imax, nrand, first, refill = case
+        rng = ScriptedLegacy(first, refill)
+        try:
+            r = np.asarray(erandom.random_indices(imax, nrand, unique=True, rng=rng))
+        except Exception as e:
+            return rec.fail(case, "random_indices with a scripted legacy generator raised %s: %s" % (type(e).__name__, e))
+        if r.shape != (nrand,) or r.dtype.kind not in "iu" or (nrand and (r.min() < 0 or r.max() >= imax)):
+            return rec.fail(case, "expected %d indices in [0,%d), got %r" % (nrand, imax, r.tolist()))
+        if len(set(r.tolist())) < nrand:
+            return rec.fail(case, "unique=True returned duplicates %r (generator answers: first draw cycles %r, later draws cycle %r)" % (r.tolist(), first, refill))
+        rec.ok(case, outcome="scripted:%d-requests" % rng.nreq, nontrivial=True, calls=1)
+
+    from mc.longarr import harvested_sizes as _hs
+    IMAXS = sorted({1000, 2 ** 31 + 5} | set(_hs([erandom], lo=100, hi=10 ** 9)) | {2 * b for b in _hs([erandom], lo=100, hi=10 ** 8)})
+    ALPH = (3, 10, 17)
+    scunits = [(im, nr, first, refill) for im in IMAXS for nr in (2, 3, 4) for first in itertools.product(ALPH, repeat=min(nr, 3))
+               for refill in ((3,), (10,), (17,), (3, 10), (10, 17, 3), (21, 22, 23, 24, 25, 26, 27, 28, 29, 30, 31, 32))]
+    ctx.notes.append("indices-scripted-legacy-generator: ranges %r" % (IMAXS,))
+    ctx.lattice("indices-scripted-legacy-generator", scunits, one_scripted, engine="environment",
+                bounds=dict(imax=IMAXS, nrand=[2, 3, 4], alphabet=list(ALPH), refills=6))
+
     # ---------------------------------------------------------------- seeded
     def one_seeded(case, rec):
         what = case[0]
